@@ -131,6 +131,13 @@ def handle : List String → Verdict
         predfail := if toks == expect then none else some s!"JSON script open tag tokenizes to {serTokens toks}",
         nontrivial := true, tags := ["jsonopen"], sig := "jsonopen" }
     | _, _, _, _ => .badOp
+  | ["gohtml", sH, wantH, gotH] =>
+    match hexField sH, hexField wantH, hexField gotH with
+    | some _s, some want, some got =>
+      { predfail := if want == got then none else
+          some s!"a fragment converted with templ.ToGoHTML changed after other components were rendered: {serTokens (tokenize got)} instead of {serTokens (tokenize want)}",
+        nontrivial := true, tags := ["gohtml"], sig := "gohtml" }
+    | _, _, _ => .badOp
   -- composition (Props/C01: C01_compose): a whole generated template of the markup fragment, rendered by the real
   -- generator + compiler + runtime; the tokenizer must read the real bytes as the author's token stream.
   | ["build", errH, _srcH] =>
